@@ -2,6 +2,7 @@ package midi
 
 import (
 	"fmt"
+	"math"
 
 	"github.com/gethiox/HIDI/internal/pkg/logger"
 	"github.com/gethiox/HIDI/internal/pkg/midi/device/config"
@@ -147,8 +148,8 @@ func ControlChangeEvent(channel, function, value uint8) Event {
 
 // PitchBendEvent accepts a value in range -1.0 to 1.0
 func PitchBendEvent(channel uint8, val float64) Event {
-	target := int(float64((1<<14)-1) * ((val + 1.0) / 2.0)) // valid 14-bit pitch-bend range
-	msb := uint8((target >> 7) & 0b01111111)                // filtering bit that is beyond valid pitch-bend range when val>1.0, just in case
-	lsb := uint8(target & 0b01111111)                       // filtering out one bit of msb, feels good man
+	target := int(math.Round(float64((1<<14)-1) * ((val + 1.0) / 2.0))) // valid 14-bit pitch-bend range
+	msb := uint8((target >> 7) & 0b01111111)                            // filtering bit that is beyond valid pitch-bend range when val>1.0, just in case
+	lsb := uint8(target & 0b01111111)                                   // filtering out one bit of msb, feels good man
 	return Event{PitchWheelChange | channel, lsb, msb}
 }
